@@ -23,7 +23,9 @@ KEYWORDS = ["as", "break", "const", "continue", "crate", "else", "enum", "extern
 # identifiers the generated code itself uses (prelude, imports, helper names)
 IDENTS = ["Option", "Some", "None", "Box", "Vec", "String", "Result", "Ok", "Err", "Into", "IntoIterator", "Iterator", "Send", "Sync", "Default", "Clone", "Debug", "Copy", "Unknown", "Builder",
           "Self", "From", "Display", "PartialEq", "Eq", "PartialOrd", "Ord", "Hash", "BTreeMap", "BTreeSet", "Any", "Bytes", "Uuid", "DateTime", "Utc", "SafeLong", "DoubleKey",
-          "ResourceIdentifier", "BearerToken", "Error", "Variant", "Type", "Value", "Visitor", "Stage0", "Deserialize", "Serialize", "Educe", "Client", "Endpoint"]
+          "ResourceIdentifier", "BearerToken", "Error", "Variant", "Type", "Value", "Visitor", "Stage0", "Deserialize", "Serialize", "Educe", "Client", "Endpoint",
+          # names the staged-builder derive and the endpoint / client macros emit or import
+          "Complete", "AStage", "Service", "AsyncService", "AsyncClient", "RequestContext", "Arc", "Future", "Pin", "Cow", "Request", "Response", "Extensions", "Method", "Plain", "FromPlain"]
 # lower-case names the generated code uses for locals / helpers / methods
 LOCALS = ["builder", "build", "new", "value", "type", "variant", "map", "s", "d", "fmt", "request", "response", "path", "body", "auth", "runtime", "client", "handler", "parts", "it", "key",
           "visitor", "deserializer", "serializer", "from", "into", "iter", "clone", "default", "ser", "de", "conjureObject", "conjure_object", "std", "core", "serde", "result", "option", "vec", "string",
@@ -189,6 +191,8 @@ def service_programs():
         n += 1
     eps.append(space.endpoint("documented", "DELETE", "/d", [], docs="Does a thing.\n\n```\nlet x = code();\n```\n\n```java\nint y;\n```\nTrailing `inline` and */ odd /* chars \\ \"quoted\".", deprecated="use something else"))
     eps.append(space.endpoint("markers", "GET", "/m/{id}", [space.arg("id", S, "path", markers=[space.SAFE_MARKER]), space.arg("t", S, "query", "t", tags=["safe", "other"])], markers=[space.external("Incubating", "com.palantir.foo", space.prim("ANY"))], tags=["some-tag", "another"]))
+    eps.append(space.endpoint("regexPath", "GET", "/files/{id}/{rest:.+}", [space.arg("id", S, "path"), space.arg("rest", S, "path")], returns=S))
+    eps.append(space.endpoint("regexStar", "GET", "/star/{rest:.*}", [space.arg("rest", S, "path")]))
     eps.append(space.endpoint("manyQuery", "GET", "/mq", [space.arg("a%d" % i, space.opt(I), "query", "a-%d" % i) for i in range(12)]))
     types = [space.obj("Documented", [space.field("f", S, docs="field docs with ``` fence\n```\ncode\n```", deprecated="old")], PKG, docs="Type docs.\n\n```\nuntagged fence\n```")]
     progs.append(Program("services", "service features (auth kinds, request context, binary bodies/returns, size limits, docs, markers, tags)", space.ir(space.FIXED_TYPES + types, [space.service("Features", eps, PKG, docs="Service docs ```\nfence\n```")]), cls="service-features"))
